@@ -1,4 +1,261 @@
-use crate::{Args, Report};
-pub fn run(_args: &Args) -> Report {
-    Report::new("todo", "".into(), "".into())
+//! Bounded companion of the stream proofs (C07/C08/C18): the real stream APIs driven by readers
+//! with explicit read-size schedules, tiny roll-buffer capacities (hook H2), and injected
+//! read / write faults at every position; compared with the in-memory definition.
+use crate::eng::{build, cv, Built, Cfg, Engine, StartKindC};
+use crate::gen::{self, enc_pats, hex, show, show_pats, Rng};
+use crate::oracle::{self, Kind, M};
+use crate::{par_for, Args, Fail, Report};
+use aho_corasick::automaton::Automaton;
+use std::io::{self, Read, Write};
+use std::panic::{catch_unwind, AssertUnwindSafe};
+
+pub struct SchedReader<'a> {
+    pub data: &'a [u8],
+    pub pos: usize,
+    pub sched: &'a [usize],
+    pub i: usize,
+    pub fail_at: Option<usize>,
+}
+impl<'a> Read for SchedReader<'a> {
+    fn read(&mut self, buf: &mut [u8]) -> io::Result<usize> {
+        if let Some(k) = self.fail_at {
+            if self.pos >= k {
+                self.fail_at = None;
+                return Err(io::Error::new(io::ErrorKind::Other, "injected read fault"));
+            }
+        }
+        let want = self.sched[self.i % self.sched.len()];
+        self.i += 1;
+        let mut n = want.min(buf.len()).min(self.data.len() - self.pos);
+        if let Some(k) = self.fail_at {
+            n = n.min(k - self.pos).max(if k > self.pos { 1 } else { 0 });
+        }
+        buf[..n].copy_from_slice(&self.data[self.pos..self.pos + n]);
+        self.pos += n;
+        Ok(n)
+    }
+}
+
+pub struct FaultWriter {
+    pub out: Vec<u8>,
+    pub fail_after: Option<usize>,
+}
+impl Write for FaultWriter {
+    fn write(&mut self, buf: &[u8]) -> io::Result<usize> {
+        if let Some(k) = self.fail_after {
+            if self.out.len() >= k {
+                return Err(io::Error::new(io::ErrorKind::Other, "injected write fault"));
+            }
+            let n = buf.len().min(k - self.out.len());
+            self.out.extend_from_slice(&buf[..n]);
+            return Ok(n);
+        }
+        self.out.extend_from_slice(buf);
+        Ok(buf.len())
+    }
+    fn flush(&mut self) -> io::Result<()> {
+        Ok(())
+    }
+}
+
+fn stream_find(b: &Built, rdr: SchedReader) -> Result<Vec<Result<M, String>>, String> {
+    macro_rules! go {
+        ($it:expr) => {{
+            let mut out = vec![];
+            for r in $it {
+                match r {
+                    Ok(m) => out.push(Ok(cv(m))),
+                    Err(e) => {
+                        out.push(Err(e.to_string()));
+                        break;
+                    }
+                }
+            }
+            Ok(out)
+        }};
+    }
+    match b {
+        Built::Top(t) => match t.try_stream_find_iter(rdr) {
+            Ok(it) => go!(it),
+            Err(e) => Err(e.to_string()),
+        },
+        Built::NC(a) => match a.try_stream_find_iter(rdr) {
+            Ok(it) => go!(it),
+            Err(e) => Err(e.to_string()),
+        },
+        Built::C(a) => match a.try_stream_find_iter(rdr) {
+            Ok(it) => go!(it),
+            Err(e) => Err(e.to_string()),
+        },
+        Built::D(a) => match a.try_stream_find_iter(rdr) {
+            Ok(it) => go!(it),
+            Err(e) => Err(e.to_string()),
+        },
+    }
+}
+
+fn stream_replace(b: &Built, rdr: SchedReader, w: &mut FaultWriter, repl: &[Vec<u8>]) -> io::Result<()> {
+    match b {
+        Built::Top(t) => t.try_stream_replace_all(rdr, w, repl),
+        Built::NC(a) => a.try_stream_replace_all(rdr, w, repl),
+        Built::C(a) => a.try_stream_replace_all(rdr, w, repl),
+        Built::D(a) => a.try_stream_replace_all(rdr, w, repl),
+    }
+}
+
+fn stream_replace_with(b: &Built, rdr: SchedReader, w: &mut FaultWriter, seen: &mut Vec<(M, Vec<u8>)>) -> io::Result<()> {
+    let mut f = |m: &aho_corasick::Match, bytes: &[u8], w: &mut &mut FaultWriter| -> io::Result<()> {
+        seen.push((cv(*m), bytes.to_vec()));
+        w.write_all(b"<")?;
+        w.write_all(bytes)?;
+        w.write_all(b">")
+    };
+    match b {
+        Built::Top(t) => t.try_stream_replace_all_with(rdr, w, &mut f),
+        Built::NC(a) => a.try_stream_replace_all_with(rdr, w, &mut f),
+        Built::C(a) => a.try_stream_replace_all_with(rdr, w, &mut f),
+        Built::D(a) => a.try_stream_replace_all_with(rdr, w, &mut f),
+    }
+}
+
+const SCHEDS: [&[usize]; 7] = [&[1], &[2], &[3, 1], &[1, 5, 2], &[usize::MAX], &[4, usize::MAX, 1], &[7, 1, 1, 2]];
+const SPARES: [Option<usize>; 5] = [Some(1), Some(2), Some(3), Some(8), None];
+
+fn fail(rep: &Report, what: &str, cfg: &Cfg, pats: &[Vec<u8>], data: &[u8], si: usize, spare: Option<usize>, fault: Option<usize>, detail: String) {
+    rep.fail(Fail {
+        key: format!("stream:{}:pats={}:data={}:sched={}:spare={:?}:fault={:?}", what, show_pats(pats), show(data), si, spare, fault),
+        what: format!("stream {} [{}] patterns {} stream '{}' read schedule {:?} spare capacity {:?} fault at {:?}: {}", what, cfg.encode(), show_pats(pats), show(data), SCHEDS[si], spare, fault, detail),
+        argv: vec!["stream".into(), "--one-cfg".into(), cfg.encode(), "--one-pats".into(), enc_pats(pats), "--one-data".into(), format!("x{}", hex(data)), "--one-sched".into(), si.to_string(),
+                   "--one-spare".into(), spare.map(|s| s.to_string()).unwrap_or("-".into()), "--one-fault".into(), fault.map(|s| s.to_string()).unwrap_or("-".into())],
+    });
+}
+
+pub fn check_one(rep: &Report, cfg: &Cfg, b: &Built, pats: &[Vec<u8>], data: &[u8], si: usize, spare: Option<usize>, faults: bool) {
+    aho_corasick::verif::set_buffer_spare_capacity(spare);
+    let want = oracle::iter(pats, cfg.ci, Kind::Std, data, 0, data.len(), false);
+    let repl: Vec<Vec<u8>> = (0..pats.len()).map(|i| format!("[{}]", i).into_bytes()).collect();
+    let want_out = oracle::splice(data, &want, &repl);
+    // C07
+    let got = catch_unwind(AssertUnwindSafe(|| stream_find(b, SchedReader { data, pos: 0, sched: SCHEDS[si], i: 0, fail_at: None })));
+    let ok = matches!(&got, Ok(Ok(v)) if v.len() == want.len() && v.iter().zip(&want).all(|(a, b)| a.as_ref().ok() == Some(b)));
+    rep.case(!want.is_empty());
+    if !ok {
+        fail(rep, "find_iter", cfg, pats, data, si, spare, None, format!("expected {:?}, got {:?}", want, got));
+    }
+    // C08: table replacement and closure variant
+    let mut w = FaultWriter { out: vec![], fail_after: None };
+    let r = catch_unwind(AssertUnwindSafe(|| stream_replace(b, SchedReader { data, pos: 0, sched: SCHEDS[si], i: 0, fail_at: None }, &mut w, &repl)));
+    rep.case(!want.is_empty());
+    if !matches!(&r, Ok(Ok(()))) || w.out != want_out {
+        fail(rep, "replace_all", cfg, pats, data, si, spare, None, format!("expected '{}', got '{}' ({:?})", show(&want_out), show(&w.out), r.map(|x| x.map_err(|e| e.to_string()))));
+    }
+    let mut w2 = FaultWriter { out: vec![], fail_after: None };
+    let mut seen = vec![];
+    let r = catch_unwind(AssertUnwindSafe(|| stream_replace_with(b, SchedReader { data, pos: 0, sched: SCHEDS[si], i: 0, fail_at: None }, &mut w2, &mut seen)));
+    let seen_ok = seen.len() == want.len() && seen.iter().zip(&want).all(|((m, bytes), w)| m == w && bytes[..] == data[w.start..w.end]);
+    rep.case(!want.is_empty());
+    if !matches!(&r, Ok(Ok(()))) || !seen_ok {
+        fail(rep, "replace_all_with", cfg, pats, data, si, spare, None, format!("closure saw {:?}, expected matches {:?}", seen, want));
+    }
+    if !faults {
+        return;
+    }
+    // C18: a read fault at every position k
+    for k in 0..=data.len() {
+        let got = catch_unwind(AssertUnwindSafe(|| stream_find(b, SchedReader { data, pos: 0, sched: SCHEDS[si], i: 0, fail_at: Some(k) })));
+        rep.case(true);
+        let ok = match &got {
+            Ok(Ok(v)) => {
+                let n_ok = v.iter().take_while(|x| x.is_ok()).count();
+                let is_prefix = n_ok <= want.len() && v[..n_ok].iter().zip(&want).all(|(a, b)| a.as_ref().ok() == Some(b));
+                // the error must surface, as the last item; every match ending at or before k-? cannot be lost silently
+                let err_last = n_ok + 1 == v.len() && v[n_ok].is_err();
+                is_prefix && err_last
+            }
+            _ => false,
+        };
+        if !ok {
+            fail(rep, "read-fault", cfg, pats, data, si, spare, Some(k), format!("fault-free {:?}, got {:?}", want, got));
+        }
+        let mut w = FaultWriter { out: vec![], fail_after: None };
+        let r = catch_unwind(AssertUnwindSafe(|| stream_replace(b, SchedReader { data, pos: 0, sched: SCHEDS[si], i: 0, fail_at: Some(k) }, &mut w, &repl)));
+        rep.case(true);
+        if !matches!(&r, Ok(Err(_))) || !want_out.starts_with(&w.out) {
+            fail(rep, "read-fault-replace", cfg, pats, data, si, spare, Some(k), format!("fault-free output '{}', written '{}', result {:?}", show(&want_out), show(&w.out), r.map(|x| x.map_err(|e| e.to_string()))));
+        }
+    }
+    // C18: a write fault after k bytes
+    for k in 0..want_out.len() {
+        let mut w = FaultWriter { out: vec![], fail_after: Some(k) };
+        let r = catch_unwind(AssertUnwindSafe(|| stream_replace(b, SchedReader { data, pos: 0, sched: SCHEDS[si], i: 0, fail_at: None }, &mut w, &repl)));
+        rep.case(true);
+        if !matches!(&r, Ok(Err(_))) || !want_out.starts_with(&w.out) {
+            fail(rep, "write-fault", cfg, pats, data, si, spare, Some(k), format!("fault-free output '{}', written '{}', result {:?}", show(&want_out), show(&w.out), r.map(|x| x.map_err(|e| e.to_string()))));
+        }
+    }
+}
+
+pub fn run(args: &Args) -> Report {
+    let thorough = args.thorough();
+    let seed = args.num("seed", 0);
+    let faults = args.get("faults", "0") == "1";
+    let rep = Report::new(
+        if faults { "stream-faults" } else { "stream" },
+        format!("non-empty pattern lists over {{a,b}} (<=3 patterns of length 1..3{}) + long-pattern lists; streams = all strings over {{a,b}} up to length {} + random streams up to 40 bytes; read schedules {:?}; roll-buffer spare capacities {:?} (hook H2; None = the default 64 KiB); {}",
+                if thorough { "" } else { ", 3-lists sampled 1/9" }, if thorough { 7 } else { 5 }, SCHEDS, SPARES,
+                if faults { "a read fault at every byte position and a write fault after every output length" } else { "no faults" }),
+        "case = (pattern list, configuration, stream, read schedule, capacity[, fault position]); non-trivial = the stream contains a match (fault cases always count)".into(),
+    );
+    if args.has("one-cfg") {
+        let cfg = Cfg::parse(&args.get("one-cfg", ""));
+        let pats = gen::dec_pats(&args.get("one-pats", "-"));
+        let data = gen::unhex(&args.get("one-data", "x")[1..]);
+        let si = args.num("one-sched", 0);
+        let spare = args.get("one-spare", "-").parse().ok();
+        if let Ok(b) = build(&cfg, &pats) {
+            check_one(&rep, &cfg, &b, &pats, &data, si, spare, args.get("one-fault", "-") != "-");
+        }
+        return rep;
+    }
+    let pool = gen::strings(b"ab", 1, 3);
+    let mut lists = gen::lists(&pool, 3, if thorough { 1 } else { 9 }, seed);
+    lists.push(vec![b"abababab".to_vec(), b"bab".to_vec()]);
+    lists.push(vec![b"aaaaaaaaaaaa".to_vec(), b"aab".to_vec(), b"b".to_vec()]);
+    let mut datas = gen::strings(b"ab", 0, if thorough { 7 } else { 5 });
+    let mut rng = Rng(0x57 + seed as u64);
+    for _ in 0..(if thorough { 40 } else { 10 }) {
+        let l = 8 + rng.below(33);
+        datas.push(rng.bytes(b"ab", l));
+    }
+    let cfgs: Vec<Cfg> = [(Engine::LowNonContig, StartKindC::B), (Engine::LowContig, StartKindC::B), (Engine::LowDfa, StartKindC::U), (Engine::TopAuto, StartKindC::U), (Engine::TopContig, StartKindC::B)]
+        .iter()
+        .map(|&(engine, sk)| Cfg { engine, sk, mk: Kind::Std, ci: false, pre: true, dd: None, bc: true })
+        .collect();
+    par_for(&lists, |pats| {
+        for (ci, cfg) in cfgs.iter().enumerate() {
+            if !thorough && faults && ci % 2 == 1 {
+                continue;
+            }
+            let b = match build(cfg, pats) {
+                Ok(b) => b,
+                Err(_) => continue,
+            };
+            for (di, data) in datas.iter().enumerate() {
+                for si in 0..SCHEDS.len() {
+                    for (pi, &spare) in SPARES.iter().enumerate() {
+                        // thin the product deterministically in quick runs
+                        if !thorough && (di + si + pi + ci) % (if faults { 5 } else { 2 }) != 0 {
+                            continue;
+                        }
+                        check_one(&rep, cfg, &b, pats, data, si, spare, faults);
+                        if rep.full() {
+                            return;
+                        }
+                    }
+                }
+            }
+        }
+    });
+    rep.sample(format!("e.g. patterns {} on stream '{}' read as {:?} with spare capacity {:?}", show_pats(&lists[7]), show(&datas[20]), SCHEDS[3], SPARES[1]));
+    rep
 }
